@@ -1,8 +1,8 @@
 /-
 C18 CODE MODEL, second sentence of the property: which validators the four message
 constructors of txdbus/message.py run on their name arguments, in the code's order
-(message.py:192-214, 240-248, 277-289, 319-332), followed by `_marshal`, which encodes the
-`path` header field as type 'o' and thereby runs `validateObjectPath` (marshal.py:487-489).
+(the four `__init__` methods), followed by `_marshal`, which encodes the `path` header field
+as type 'o' and thereby runs `validateObjectPath` (`marshal_object_path`).
 Only the name-carrying arguments are modelled; the body is absent (`signature=None`), the
 serial numbers are irrelevant here.  `sender` is not validated by any constructor and is not
 in the property's list.  Core Lean only.
